@@ -1,1 +1,196 @@
-def main : IO Unit := pure ()
+import MimeModel.Model.Detect
+import MimeModel.Model.MediaType
+import MimeModel.Gen.Tree
+import MimeModel.Spec.All
+/-
+  Line-protocol driver for the correspondence check (core Lean only; compiled).
+  Input : one operation per line, `op args... => go-result`
+  Output: one status line per input line:
+     OK | DIFF <what> model=<..> | SPEC <clause> | SKIP <why> | BAD <why>
+-/
+open Mime
+
+def bhex (b : Bytes) : String := tohex b
+
+def parseNat (s : String) : Option Nat := s.toNat?
+
+def showOB : Option Bool → String
+  | some true => "T" | some false => "F" | none => "PANIC"
+
+/-- `t1,t2,...` with `ti = name:k=v&k=v` (all hex, "-" = empty); "~" = no tags -/
+def parseTags (s : String) : Option (List Charset.Tag) :=
+  if s == "~" then some [] else
+  (s.splitOn ",").mapM fun t =>
+    match t.splitOn ":" with
+    | [n] => (unhex n).map fun nb => { name := nb, attrs := [] }
+    | [n, as] => do
+      let nb ← unhex n
+      let attrs ← (as.splitOn "&").mapM fun a =>
+        match a.splitOn "=" with
+        | [k, v] => do let kb ← unhex k; let vb ← unhex v; pure (kb, vb)
+        | _ => none
+      pure { name := nb, attrs := attrs }
+    | _ => none
+
+def parseInst (s : String) : Option (Option Bytes) :=
+  if s == "~" then some none else (unhex s).map some
+
+/-- a generic labelled tree received from the harness: preorder `label/nchildren` list -/
+partial def buildTree (toks : List (String × Nat)) : Option (Tree String × List (String × Nat)) :=
+  match toks with
+  | [] => none
+  | (l, n) :: rest =>
+    let rec kids (k : Nat) (ts : List (String × Nat)) (acc : List (Tree String)) :
+        Option (List (Tree String) × List (String × Nat)) :=
+      match k with
+      | 0 => some (acc.reverse, ts)
+      | k + 1 => match buildTree ts with
+        | none => none
+        | some (c, ts') => kids k ts' (c :: acc)
+    match kids n rest [] with
+    | none => none
+    | some (cs, rest') => some (.node l cs, rest')
+
+def infoLabel (i : Info) : String :=
+  bhex i.mime ++ "|" ++ bhex i.ext ++ "|" ++ String.intercalate "+" (i.aliases.map bhex)
+
+mutual
+partial def dumpTree (t : Tree Info) : List String :=
+  match t with
+  | .node a cs => (infoLabel a ++ "/" ++ toString cs.length) :: dumpList cs
+partial def dumpList (cs : List (Tree Info)) : List String :=
+  match cs with
+  | [] => []
+  | c :: r => dumpTree c ++ dumpList r
+end
+
+structure St where
+  dummy : Unit := ()
+
+def extOfVerdicts (flat : List Info) (verd : List Char) (toks : List Charset.Tag) (inst : Option Bytes) : Ext :=
+  { cust := fun _ _ _ => false, htmlToks := fun _ => toks, xmlInst := fun _ => inst }
+
+/-- verdict lookup by position in the flattened tree -/
+def verdictOf (names : List String) (verd : List Char) (n : String) : Bool :=
+  match (names.zip verd).find? (fun p => p.1 == n) with
+  | some (_, c) => c == 'T'
+  | none => false
+
+def chainStr (c : List Info) : String :=
+  String.intercalate "," (c.map fun i => bhex i.mime ++ "|" ++ bhex i.ext)
+
+def handle (line : String) : String :=
+  match line.splitOn " => " with
+  | [lhs, goRes] =>
+    let f := lhs.splitOn " "
+    match f with
+    | ["det", name, hx, lim] =>
+      match unhex hx, parseNat lim with
+      | some raw, some l =>
+        match Gen.dets.find? (fun p => p.1 == name) with
+        | none => "SKIP no-such-detector"
+        | some (_, d) =>
+          let modelled := match d with
+            | .custom c => (Cust.customModel c).isSome
+            | _ => true
+          if !modelled then "SKIP unmodelled" else
+          let m := showOB (Cust.detEval (fun _ _ _ => false) d raw l)
+          if m == goRes then "OK" else s!"DIFF det:{name} model={m}"
+      | _, _ => "BAD args"
+    | ["walk", hx, lim, verd, toks, inst] =>
+      match unhex hx, parseNat lim, parseTags toks, parseInst inst with
+      | some raw, some l, some tg, some ins =>
+        let T := Gen.builtin
+        let flat := T.flatten
+        let vs := verd.toList
+        if vs.length != flat.length then s!"DIFF tree-size model={flat.length} go={vs.length}" else
+        let h := header raw l
+        -- 1. every modelled detector agrees with the real verdict on this header
+        let bad := (flat.zip vs).filterMap fun (i, v) =>
+          let modelled := match i.det with
+            | .custom c => (Cust.customModel c).isSome
+            | _ => true
+          if !modelled then none else
+          let m := showOB (Cust.detEval (fun _ _ _ => false) i.det h l)
+          let g := if v == 'T' then "T" else if v == 'F' then "F" else "PANIC"
+          if m == g then none else some s!"{i.detName}:model={m},go={g}"
+        -- 2. the walk over the real verdicts reproduces the real result
+        let idx := flat.zip vs
+        let acc : Info → Bool := fun i =>
+          match idx.find? (fun p => p.1.name == i.name) with
+          | some (_, c) => c == 'T'
+          | none => false
+        let path := T.walk acc
+        let chain := path.reverse
+        let ext : Ext := { cust := fun _ _ _ => false, htmlToks := fun _ => tg, xmlInst := fun _ => ins }
+        let cs := match chain with
+          | [] => []
+          | leaf :: _ => charsetFor ext leaf.mime h
+        let leafStr := match chain with
+          | [] => []
+          | leaf :: _ => MT.withCharset leaf.mime cs
+        let m := chainStr chain ++ " " ++ bhex leafStr
+        let d1 := if bad.isEmpty then "" else "DIFF verdicts " ++ String.intercalate ";" bad
+        let d2 := if m == goRes then "" else s!"DIFF walk model={m}"
+        let sp := Spec.walkSpec raw l chain cs leafStr
+        let all := [d1, d2, sp].filter (· != "")
+        if all.isEmpty then "OK" else String.intercalate " ; " all
+      | _, _, _, _ => "BAD args"
+    | ["jparse", q, hx] =>
+      match unhex hx with
+      | some raw =>
+        let r := Json.parse (Json.queriesOf q) raw
+        let m := s!"{r.parsed} {r.inspected} {r.firstToken} {r.querySatisfied}"
+        if m == goRes then "OK" else s!"DIFF jparse model={m}"
+      | none => "BAD args"
+    | ["cs", "plain", hx] =>
+      match unhex hx with
+      | some raw =>
+        let m := bhex (Charset.fromPlain raw)
+        let d := if m == goRes then "" else s!"DIFF cs-plain model={m}"
+        let sp := Spec.charsetSpec raw goRes
+        let all := [d, sp].filter (· != "")
+        if all.isEmpty then "OK" else String.intercalate " ; " all
+      | none => "BAD args"
+    | ["cs", "html", hx, toks] =>
+      match unhex hx, parseTags toks with
+      | some raw, some tg =>
+        let m := bhex (Charset.fromHTML raw tg)
+        if m == goRes then "OK" else s!"DIFF cs-html model={m}"
+      | _, _ => "BAD args"
+    | ["cs", "xml", hx, inst] =>
+      match unhex hx, parseInst inst with
+      | some raw, some ins =>
+        let m := bhex (Charset.fromXML raw ins)
+        if m == goRes then "OK" else s!"DIFF cs-xml model={m}"
+      | _, _ => "BAD args"
+    | ["meta", hx] =>
+      match unhex hx with
+      | some s =>
+        let m := bhex (Charset.fromMetaElement s)
+        if m == goRes then "OK" else s!"DIFF meta model={m}"
+      | none => "BAD args"
+    | ["xmlenc", hx] =>
+      match unhex hx with
+      | some s =>
+        let m := bhex (Charset.xmlEncoding s)
+        if m == goRes then "OK" else s!"DIFF xmlenc model={m}"
+      | none => "BAD args"
+    | ["treeeq"] =>
+      let m := String.intercalate " " (dumpTree Gen.builtin)
+      if m == goRes then "OK" else s!"DIFF tree model={m}"
+    | _ => "BAD op"
+  | _ => "BAD line"
+
+partial def loop (hin hout : IO.FS.Stream) : IO Unit := do
+  let line ← hin.getLine
+  if line.isEmpty then return ()
+  let l := (line.dropRightWhile (fun c => c == '\n' || c == '\r'))
+  hout.putStrLn (handle l)
+  loop hin hout
+
+def main : IO Unit := do
+  let hin ← IO.getStdin
+  let hout ← IO.getStdout
+  loop hin hout
+  hout.flush
